@@ -246,12 +246,13 @@ def event_model(draw, max_states=5, max_events=5, kinds="TBD", limits=False, tra
     lim_kind = {}
     if limits:
         for d in decl:
-            if "range" in d:
+            if "range" in d and draw(st.booleans()):
                 for nm in d["names"]:
                     lim_kind[nm] = "default"
                 continue
             k = draw(st.sampled_from(LIMIT_CHOICES))
-            lim_kind[d["name"]] = k
+            for nm in (d["names"] if "range" in d else [d["name"]]):
+                lim_kind[nm] = k          # a range-style name carries ONE limits tuple for all the states it expands to
             if k == "zero_none":
                 d["lims"] = [0, None]
             elif k == "lo_none":
